@@ -201,7 +201,8 @@ type World struct {
 	log    []Event
 	tag    int
 	nLeaf  int
-	gates  []*Gate
+	gates  []*Gate // armed
+	all    []*Gate // every gate ever armed (ReleaseAll)
 	record bool
 
 	// FileHandles[i] / DirHandles[i]: NFS file handles of d<i>/f and d<i>.
@@ -235,15 +236,28 @@ func (w *World) Park(leaf int, kind string) *Gate {
 	g := &Gate{leaf: leaf, kind: kind, entered: make(chan struct{}), release: make(chan struct{})}
 	w.mu.Lock()
 	w.gates = append(w.gates, g)
+	w.all = append(w.all, g)
 	w.mu.Unlock()
 	return g
+}
+
+// Disarm removes a gate nobody has reached yet (no-op otherwise).
+func (w *World) Disarm(g *Gate) {
+	w.mu.Lock()
+	for i, c := range w.gates {
+		if c == g {
+			w.gates = append(w.gates[:i:i], w.gates[i+1:]...)
+			break
+		}
+	}
+	w.mu.Unlock()
 }
 
 // ReleaseAll releases every gate (call at the end of a synctest bubble).
 func (w *World) ReleaseAll() {
 	w.mu.Lock()
-	gs := append([]*Gate(nil), w.gates...)
-	w.gates = nil
+	gs := append([]*Gate(nil), w.all...)
+	w.gates, w.all = nil, nil
 	w.mu.Unlock()
 	for _, g := range gs {
 		g.Release()
